@@ -38,6 +38,7 @@ type Program struct {
 	Units    []Unit       // deletable statements of main.go (for minimisation), outermost first
 	Wheres   map[int]int  // marker id -> 1-based line of main.go holding the y.Where(id) call
 	WhereV   map[int]bool // markers placed in expression position (y.WhereV)
+	WhereAlt map[int]int  // marker id -> second acceptable line (operands of select clauses)
 }
 
 // Unit is a statement of main.go given by its line range [From,To) and the statement form that produced it.
@@ -67,6 +68,7 @@ type gen struct {
 	units    []Unit
 	wheres   map[int]int
 	wherev   map[int]bool
+	wherealt map[int]int
 	unnamed  bool
 	inDefer  int
 	noDyn    int
@@ -352,7 +354,7 @@ func (g *gen) stmt() {
 		{"pointer", 3, true, g.sPointer},
 		{"early", 1, g.depth > 1 && g.inDefer == 0 && g.inLoop > 0, g.sEarlyReturn},
 		{"goexit", 2, g.o.Goexit && g.inDefer == 0, g.sGoexit},
-		{"where", 8, g.o.Where, g.sWhere},
+		{"where", 20, g.o.Where, g.sWhere},
 		{"nestedpanic", 3, g.o.Unwind && g.inLoop == 0 && g.inDefer == 0, g.sNestedPanic},
 		{"repanic", 3, g.o.Unwind && g.panicky && g.inLoop == 0 && g.inDefer == 0, g.sRepanic},
 		{"indirectrecover", 2, g.o.Unwind && g.inLoop == 0 && g.inDefer == 0, g.sIndirectRecover},
@@ -830,17 +832,153 @@ func (g *gen) restricted(fn func()) {
 
 func (g *gen) sWhere() {
 	id := len(g.wheres) + 1
-	g.wheres[id] = g.lines + 1
-	switch g.r.Intn(4) {
+	// here records the line of the Go statement the marker's caller frame must map to: the line written next
+	here := func() { g.wheres[id] = g.lines + 1 }
+	here()
+	v := fmt.Sprintf("y.WhereV(%d)", id)
+	g.tmp++
+	w := fmt.Sprintf("w%d", g.tmp)
+	form := func(name string) { g.f("where:" + name); g.wherev[id] = true }
+	switch g.r.Intn(36) {
 	case 0:
 		// the marker sits in the tail of a statement, after a function literal
-		g.f("where:after-function-literal")
-		g.wherev[id] = true
-		g.line("a = sel3(a > -99999, func() int { c++; return c }(), 0) + y.WhereV(%d)", id)
+		form("after-function-literal")
+		g.line("a = sel3(a > -99999, func() int { c++; return c }(), 0) + %s", v)
 	case 1:
-		g.f("where:call-argument-after-literal")
-		g.wherev[id] = true
-		g.line("b += y.Apply(func(q int) int { return q + 1 }, y.WhereV(%d))", id)
+		form("call-argument-after-literal")
+		g.line("b += y.Apply(func(q int) int { return q + 1 }, %s)", v)
+	case 2:
+		form("if-condition")
+		g.line("if %s > 99999 {", v)
+		g.line("\ta++")
+		g.line("}")
+	case 3:
+		form("else-if-condition")
+		g.line("if a < -99999 {")
+		g.line("\tb++")
+		here()
+		g.line("} else if %s == 0 {", v)
+		g.line("\tb++")
+		g.line("}")
+	case 4:
+		form("switch-tag")
+		g.line("switch %s {", v)
+		g.line("case 0:")
+		g.line("\tc++")
+		g.line("}")
+	case 5:
+		form("case-expression")
+		g.line("switch {")
+		here()
+		g.line("case %s == 0:", v)
+		g.line("\tc++")
+		g.line("}")
+	case 6:
+		form("for-init")
+		g.line("for %s := %s; %s < 1; %s++ {", w, v, w, w)
+		g.line("\ta++")
+		g.line("}")
+	case 7:
+		form("for-condition")
+		g.line("for %s := 0; %s < 1+%s; %s++ {", w, w, v, w)
+		g.line("\ta++")
+		g.line("}")
+	case 8:
+		form("for-post")
+		g.line("for %s := 0; %s < 1; %s += 1 + %s {", w, w, w, v)
+		g.line("\ta++")
+		g.line("}")
+	case 9:
+		form("return-named-result")
+		g.line("a += func() (q int) { return %s }()", v)
+	case 10:
+		form("return-unnamed-result")
+		g.line("a += func() int { return %s }()", v)
+	case 11:
+		form("send-statement")
+		g.line("c%s := make(chan int, 1)", w)
+		here()
+		g.line("c%s <- %s", w, v)
+		g.line("<-c%s", w)
+	case 12:
+		form("pointer-op-assign")
+		g.line("*pi += %s", v)
+	case 13:
+		form("index-incdec")
+		g.line("arr[%s]++", v)
+	case 14:
+		form("var-declaration")
+		g.line("var %s = %s", w, v)
+		g.line("_ = %s", w)
+	case 15:
+		form("defer-argument")
+		g.line("defer func(int) {}(%s)", v)
+	case 16:
+		form("go-argument")
+		g.line("go func(int) {}(%s)", v)
+	case 17:
+		form("range-expression")
+		g.line("for _, %s := range []int{%s} {", w, v)
+		g.line("\ta += %s", w)
+		g.line("}")
+	case 18:
+		// the operands of every communication clause are evaluated when the select statement is entered: the
+		// frame may be attributed to the select statement or to the clause
+		form("select-send-operand")
+		g.line("c%s := make(chan int, 1)", w)
+		g.wherealt[id] = g.lines + 1
+		g.line("select {")
+		here()
+		g.line("case c%s <- %s:", w, v)
+		g.line("default:")
+		g.line("}")
+	case 19:
+		form("tuple-assignment")
+		g.line("a, b = b, a+%s", v)
+	case 20:
+		form("field-op-assign")
+		g.line("st.a += %s", v)
+	case 21:
+		form("map-op-assign")
+		g.line("m[\"a\"] += %s", v)
+	case 22:
+		form("append-argument")
+		g.line("_ = append(sl, %s)", v)
+	case 23:
+		form("type-switch-operand")
+		g.line("switch interface{}(%s).(type) {", v)
+		g.line("case int:")
+		g.line("\tc++")
+		g.line("}")
+	case 24:
+		form("labelled-for")
+		g.line("L%s:", w)
+		here()
+		g.line("for %s := %s; %s < 2; %s++ {", w, v, w, w)
+		g.line("\tcontinue L%s", w)
+		g.line("}")
+	case 25:
+		form("if-init")
+		g.line("if %s := %s; %s > 99999 {", w, v, w)
+		g.line("\ta++")
+		g.line("}")
+	case 26:
+		form("switch-init")
+		g.line("switch %s := %s; {", w, v)
+		g.line("case %s > 99999:", w)
+		g.line("\ta++")
+		g.line("}")
+	case 27:
+		// a statement spanning several lines: the frame belongs to the statement's first line
+		form("second-line-of-statement")
+		g.line("_ = sum3(a,")
+		g.line("\t%s)", v)
+	case 28:
+		form("struct-pointer-field")
+		g.line("ps.a += %s", v)
+	case 29:
+		form("slice-element-assign")
+		g.line("sl[0] = sl[%s] + 1 - 1", v)
 	default:
 		g.line("y.Where(%d)", id)
 	}
@@ -1154,7 +1292,7 @@ func (g *gen) function(idx int) {
 	if g.o.Unwind {
 		g.panicky = g.r.Chance(70, 100)
 	}
-	if g.o.Unwind && g.r.Chance(1, 4) {
+	if (g.o.Unwind && g.r.Chance(1, 4)) || (!g.o.Unwind && g.r.Chance(1, 5)) {
 		// unnamed result: after a recovered panic the function returns the zero value; deferred closures can
 		// not change what a completed return statement returns
 		g.f("func:unnamed-result")
@@ -1360,7 +1498,7 @@ func has(s, sub string) bool {
 
 // Generate draws one program.
 func Generate(r *rng.R, o Opts) *Program {
-	g := &gen{r: r, o: o, feat: map[string]int{}, wheres: map[int]int{}, wherev: map[int]bool{}}
+	g := &gen{r: r, o: o, feat: map[string]int{}, wheres: map[int]int{}, wherev: map[int]bool{}, wherealt: map[int]int{}}
 	g.b.WriteString(prelude)
 	g.lines = strings.Count(prelude, "\n")
 	for i := 0; i < o.Funcs; i++ {
@@ -1391,7 +1529,7 @@ func Generate(r *rng.R, o Opts) *Program {
 		}
 		return g.units[a].To-g.units[a].From > g.units[b].To-g.units[b].From
 	})
-	return &Program{Files: map[string]string{"main.go": g.b.String(), "go.mod": "module seqprog\n\ngo 1.20\n"}, Atoms: g.atom, Features: g.feat, Clean: o.Clean, Units: g.units, Wheres: g.wheres, WhereV: g.wherev}
+	return &Program{Files: map[string]string{"main.go": g.b.String(), "go.mod": "module seqprog\n\ngo 1.20\n"}, Atoms: g.atom, Features: g.feat, Clean: o.Clean, Units: g.units, Wheres: g.wheres, WhereV: g.wherev, WhereAlt: g.wherealt}
 }
 
 func (p *Program) FeatureList() []string {
@@ -1459,7 +1597,7 @@ func main() {
 }
 `, o.Funcs, o.Funcs, o.Funcs)
 	return &Program{Files: map[string]string{"main.go": g.b.String(), "main_s.go": mainS, "main_m.go": mainM, "go.mod": "module seqprog\n\ngo 1.20\n"},
-		Atoms: g.atom, Features: g.feat, Clean: o.Clean, Units: g.units, Wheres: g.wheres, WhereV: g.wherev}
+		Atoms: g.atom, Features: g.feat, Clean: o.Clean, Units: g.units, Wheres: g.wheres, WhereV: g.wherev, WhereAlt: g.wherealt}
 }
 
 // GenerateChains draws a program made of call chains main -> c1 -> ... -> ck -> yield atom, in which every link
